@@ -2,7 +2,8 @@
    Directives in force: those of ExtrOcamlBasic only (bool, option, unit, list, prod, sumbool,
    sumor -> OCaml types); Z, positive, N, nat stay inductive; no Extract Constant. *)
 Require Extraction. Require ExtrOcamlBasic.
-Require Import PyBase GenText Text TextSpec.
+Require Import PyBase GenText Text TextSpec GenTape Tape K7.
 Extraction Language OCaml.
 Extraction "model.ml" nl_run prettier_run pretty_spec nl_spec chomp
-  nl_default_start nl_default_increment nl_default_width.
+  nl_default_start nl_default_increment nl_default_width
+  tar_create tar_list tar_extract k7_decode doc_entry doc_path k7_encoded_size k7_file_image.
